@@ -4342,13 +4342,17 @@ static Value eval_statement(ASTNode *stmt, Environment *env) {
 
         case AST_BLOCK: {
             Value result = create_void();
+            /* A block is a scope: what it declares ends with it (same convention as match arms
+             * and for loops: the entries are dropped, not freed) */
+            int block_symbol_count = env->symbol_count;
             for (int i = 0; i < stmt->as.block.count; i++) {
                 result = eval_statement(stmt->as.block.statements[i], env);
                 /* If statement returned a value, propagate it immediately */
                 if (result.is_return || result.is_break || result.is_continue) {
-                    return result;
+                    break;
                 }
             }
+            env->symbol_count = block_symbol_count;
             return result;
         }
 
@@ -4392,13 +4396,15 @@ static Value eval_statement(ASTNode *stmt, Environment *env) {
         case AST_UNSAFE_BLOCK: {
             /* Unsafe blocks are treated like regular blocks in the interpreter */
             Value result = create_void();
+            int unsafe_symbol_count = env->symbol_count;
             for (int i = 0; i < stmt->as.unsafe_block.count; i++) {
                 result = eval_statement(stmt->as.unsafe_block.statements[i], env);
                 /* If statement returned a value, propagate it immediately */
                 if (result.is_return || result.is_break || result.is_continue) {
-                    return result;
+                    break;
                 }
             }
+            env->symbol_count = unsafe_symbol_count;
             return result;
         }
 
